@@ -164,7 +164,9 @@ class Arms:
                 return "push:%s" % (a[1] if sym.is_c(a) else "byte")
             return "std:push"
         if nm == "extend_from_slice":
-            a = norm(e["args"][1])
+            a = e["args"][1]
+            while a[0] == "ref" and a[1][0] == "P":
+                a = a[1][1]
             kind = "bytes"
             if a[0] == "call":
                 ev = tbl.event_by_id(p, a[1])
